@@ -238,8 +238,9 @@ MinFree(S) == CHOOSE i \in S : \A j \in S : i <= j
 FreshV(h) == MinFree({i \in 1..MaxId : ~h.vec[i].used})
 FreshM(h) == MinFree({i \in 1..MaxId : ~h.map[i].used})
 FreshA(h) == MinFree({i \in 1..MaxId : ~h.arena[i].alive})
-HasFresh(h) == /\ Cardinality({i \in 1..MaxId : ~h.vec[i].used}) >= 2
-               /\ Cardinality({i \in 1..MaxId : ~h.map[i].used}) >= 2
+\* (one action allocates at most one container per level of its path plus one: four free identifiers are always enough)
+HasFresh(h) == /\ Cardinality({i \in 1..MaxId : ~h.vec[i].used}) >= 4
+               /\ Cardinality({i \in 1..MaxId : ~h.map[i].used}) >= 4
                /\ \E i \in 1..MaxId : ~h.arena[i].alive
 
 \* Value::clone(): an owned container is *shared* (Arc clone), an arena node gets a new root handle
